@@ -11,7 +11,7 @@ ID = 'C06'
 LEVEL = 'exploration'
 RULE = ('(a) tokens: 23 spellings of a newline-matching terminal (kept and %ignored) x 3 grammar shapes x 5 parser/lexer '
         'configurations x str/bytes x every input over {a, b, newline, blank} up to the bound: every token returned by parse() and '
-        'lex() must satisfy text[start:end]==value and carry the line/column of start_pos and the (per lexer family) end '
+        'lex() -- also by the instance restored with Lark.load, and by parse(on_error=skip) on inputs it recovers -- must satisfy text[start:end]==value and carry the line/column of start_pos and the (per lexer family) end '
         'coordinate computed by count("\\n"); (b) tree meta: SHAPE grammars x propagate_positions x lalr/earley x inputs with a '
         'single derivation: every node\'s meta must span the first..last token its derivation node matched (filtered ones '
         'included), nested and ordered. Non-trivial = accepted input containing a newline before its last token (a), accepted '
@@ -35,6 +35,7 @@ def tok_grammar(si, spell, ignored):
 def plan(tier, seed):
     L = 4 if tier == 'quick' else 5
     items = [('tok', si, ni, ign, L) for si in range(3) for ni in range(len(NLSPELL)) for ign in (False, True)]
+    items += [('rec', gi, L + 1) for gi in range(len(REC_GRAMMARS))]
     for name, k, Lm in (META_TIERS[tier]):
         items += [('meta',) + it for it in _meta.plan_box(name, k, Lm, seed)]
     return items
@@ -92,6 +93,7 @@ def work_tok(item, res, only=None):
                 res['counters']['unsupported: construction refused (%s)' % ('bytes' if use_bytes else 'str')] += 1
                 continue
             p = r[1]
+            loaded = None
             family = 'dynamic' if lexer.startswith('dynamic') else 'basic'
             for w in inputs:
                 if only and only.get('input') != w:
@@ -120,6 +122,18 @@ def work_tok(item, res, only=None):
                                                'tokens': [obs.tok(t) for t in toks]})
                 elif not isinstance(pr[1], UnexpectedInput):
                     bad('error-class', 'error-class', 'UnexpectedInput', repr(pr[1])[:200], 'parse')
+                if parser == 'lalr' and pr[0] == 'ok':
+                    # the same lexer restored from its serialised form (Lark.save / Lark.load): also "a lexer"
+                    if loaded is None:
+                        loaded = restore(p)
+                    lp = larkio.parse(loaded, text) if loaded is not False else None
+                    res['evals'] += 1
+                    if lp is not None and lp[0] == 'ok' and isinstance(lp[1], Tree):
+                        for t in lp[1].scan_values(lambda v: hasattr(v, 'type')):
+                            if not check_token(t, text, family, bad, 'parse on the instance restored by Lark.load'):
+                                break
+                    elif lp is not None:
+                        bad('restored-instance-rejects', 'restored', 'a tree', repr(lp[1])[:200], 'parse on the instance restored by Lark.load')
                 if family == 'basic' and parser == 'lalr' and lexer == 'basic':
                     lr = util.timed(lambda: list(p.lex(text)))
                     res['evals'] += 1
@@ -127,6 +141,71 @@ def work_tok(item, res, only=None):
                         for t in lr[1]:
                             if not check_token(t, text, family, bad, 'lex'):
                                 break
+                res['viol'].extend(viol[:1])
+
+
+def restore(p):
+    import io
+    try:
+        buf = io.BytesIO()
+        p.save(buf)
+        return type(p).load(io.BytesIO(buf.getvalue()))
+    except Exception:
+        return False
+
+
+# --------------------------------------------------------------------------------------------------- recovered input
+
+REC_GRAMMARS = [
+    'start: (A | B)*\nA: "a"\nB: "b"\n%ignore " "\n',                          # a line break is not lexable at all
+    'start: (A | B | N)*\nA: "a"\nB: "b"\nN: /\\n b/\n',                       # ... lexable only together with what follows
+    'start: A (N A)* B?\nA: "a"\nB: "b"\nN: "\\n"\n%ignore " "\n',            # lexable, unexpected by the parser (token dropped)
+]
+
+
+def work_rec(item, res, only=None):
+    """parse(text, on_error=...) with a handler that lets lark skip the offending character / token: the tokens of the
+    tree that comes back are still tokens of *this* text and must carry its coordinates."""
+    _, gi, L = item
+    gtext = REC_GRAMMARS[gi]
+    inputs = list(util.strings('ab\n ', L))
+    for lexer in ('basic', 'contextual'):
+        for use_bytes in (False, True):
+            if only and (only['lexer'], only['use_bytes']) != (lexer, use_bytes):
+                continue
+            r = larkio.build(gtext, parser='lalr', lexer=lexer, use_bytes=use_bytes)
+            res['evals'] += 1
+            if r[0] != 'ok':
+                res['viol'].append({'kind': 'construction', 'cause': 'construction', 'case': {'mode': 'rec', 'item': list(item), 'grammar': gtext, 'lexer': lexer, 'use_bytes': use_bytes},
+                                    'expected': 'constructed', 'observed': repr(r[1])[:200]})
+                continue
+            p = r[1]
+            for w in inputs:
+                if only and only.get('input') != w:
+                    continue
+                text = w.encode('latin1') if use_bytes else w
+                errors = []
+
+                def handler(e):
+                    errors.append(type(e).__name__)
+                    return len(errors) < 20
+                pr = util.timed(lambda: p.parse(text, on_error=handler))
+                res['evals'] += 1
+                if pr[0] != 'ok' or not isinstance(pr[1], Tree) or not errors:
+                    continue
+                viol = []
+
+                def bad(kind, cause, exp, got, where, w=w):
+                    viol.append({'kind': kind, 'cause': cause, 'case': {'mode': 'rec', 'item': list(item), 'grammar': gtext, 'lexer': lexer,
+                                                                       'use_bytes': use_bytes, 'input': w, 'via': where, 'errors_handled': errors},
+                                 'expected': exp, 'observed': got})
+                toks = list(pr[1].scan_values(lambda v: hasattr(v, 'type')))
+                if '\n' in w[:-1] and toks:
+                    res['nontrivial'] += 1
+                    res['counters']['recovered inputs (on_error) with a line break, tokens checked'] += 1
+                for t in toks:
+                    if not check_token(t, text, 'basic', bad, 'parse(on_error=skip)'):
+                        break
                 res['viol'].extend(viol[:1])
 
 
@@ -297,10 +376,19 @@ def work(item):
         work_tok(item, res)
         res['counters'] = dict(res['counters'])
         return res
+    if item[0] == 'rec':
+        res = new_res()
+        work_rec(item, res)
+        res['counters'] = dict(res['counters'])
+        return res
     return _meta.work(item[1:])
 
 
 def replay(case):
+    if case.get('mode') == 'rec':
+        res = new_res()
+        work_rec(tuple(case['item']), res, only=case)
+        return res['viol']
     if case.get('mode') == 'tok':
         res = new_res()
         work_tok(tuple(case['item']), res, only=case)
